@@ -306,6 +306,7 @@ public:
       J.attribute("k", "gvar");
       J.attribute("n", qname(VD));
       J.attribute("t", typeStr(VD->getType()));
+      if (DRE) tryConst(DRE);   // static const / constexpr data (std::ios::trunc, limits)
       return;
     }
     if (auto *BD = dyn_cast<BindingDecl>(D)) {
@@ -427,6 +428,7 @@ public:
       if (FD && isa<CXXMethodDecl>(FD)) J.attribute("memberop", true);
       attrLoc(S);
       J.attribute("t", typeStr(E->getType()));
+      tryConst(E);   // constexpr operators (e.g. ios::binary | ios::app) fold to a constant
       callCommon(E);
       return;
     }
